@@ -21,14 +21,17 @@ int main(int argc, char **argv) {
     while (off < b.size()) { x86::Insn I = x86::decode(b.data() + off, b.size() - off); printf("%s\n", x86::to_string(I).c_str()); if (!I.ok) return 1; off += I.len; }
     return 0;
   }
+  if (cmd == "selftest-dump" && argc >= 4) return selftest_dump(strtoull(argv[2], nullptr, 10), atoi(argv[3]));
+  if (cmd == "selftest-check" && argc >= 3) return selftest_check(argv[2]);
   if (cmd == "replay" && argc >= 4) {
     std::string prop = argv[2], cid = argv[3];
     if (cid.compare(0, 2, "R|") == 0) return replay_reject(cid);
+    if (cid.compare(0, 2, "F|") == 0) return replay_line(prop, cid);
     if (cid.compare(0, 3, "FZ|") == 0) return replay_fz(cid);
     if (cid.compare(0, 4, "C17|") == 0 || cid.compare(0, 4, "C19|") == 0) return replay_fi(cid);
     if (cid.compare(0, 4, "C20|") == 0) return replay_cli(cid);
     if (cid.compare(0, 4, "C07|") == 0 || cid.compare(0, 4, "C08|") == 0) return replay_buf(cid);
-    if (cid.size() > 4 && cid[0] == 'C' && cid[3] == '|') return replay_hist(prop, cid, 1);
+    if (cid.size() > 5 && cid[0] == 'C' && (cid[3] == '|' || cid[4] == '|')) return replay_hist(prop, cid, 1);
     if (prop == "C11" || prop == "C16") return replay_modes(prop, cid);
     return replay_line(prop, cid);
   }
